@@ -234,6 +234,8 @@ inductive Op
   | merge (r s : Nat) | keys (r : Nat) | values (r : Nat) | entries (r : Nat) | mapValues (r : Nat) (f : Fn)
   | selectPairs (r : Nat) (p : Pred) | rejectPairs (r : Nat) (p : Pred)
   | mput (r : Nat) (k v : Elem) | mputAll (r s : Nat) | get (r : Nat) (x : Elem)
+  | chunk (r : Nat) (n k : Int)            -- the k-th slice EachSlice(n, …) hands to its consumer
+  | asArray (r : Nat)
   | obs (r : Nat) (s : Option Nat)          -- ptype dtype tostring tokey walk ser / equals
   deriving Repr
 
@@ -245,14 +247,14 @@ inductive SameSite
   deriving Repr, DecidableEq
 
 /-- sites whose result is a window `[lo, hi)` of the receiver's value -/
-inductive WinSite | arrSlice | hashSlice deriving Repr, DecidableEq
+inductive WinSite | arrSlice | hashSlice | arrEachSlice deriving Repr, DecidableEq
 
 /-- sites whose result is a newly computed sequence -/
 inductive NewSite
   | arrAdd | arrAddAll | arrDelete | arrDeleteAll | arrMap | arrSelect | arrReject | arrSort | arrFlatten0 | arrUnique2
   | hashAdd0 | hashAdd1 | hashAddAll0 | hashDelete0 | hashDeleteAll1 | hashMap | hashMapValues | hashSelect | hashReject
   | hashSelectPairs | hashRejectPairs | hashMerge | hashSort | hashFlatten0 | hashFlatten1 | hashKeys | hashValues
-  | mutPutAll
+  | mutPutAll | hashEachSlice | hashAsArray
   deriving Repr, DecidableEq
 
 /-- constructors -/
@@ -264,7 +266,7 @@ def SameSite.key : SameSite → String
   | .hashEntries0 => "Hash.Entries/r0"
 
 def WinSite.key : WinSite → String
-  | .arrSlice => "Array.Slice/r0" | .hashSlice => "Hash.Slice/r0"
+  | .arrSlice => "Array.Slice/r0" | .hashSlice => "Hash.Slice/r0" | .arrEachSlice => "Array.EachSlice/c0"
 
 def NewSite.key : NewSite → String
   | .arrAdd => "Array.Add/r0" | .arrAddAll => "Array.AddAll/r0" | .arrDelete => "Array.Delete/r0"
@@ -276,7 +278,7 @@ def NewSite.key : NewSite → String
   | .hashReject => "Hash.Reject/r0" | .hashSelectPairs => "Hash.SelectPairs/r0" | .hashRejectPairs => "Hash.RejectPairs/r0"
   | .hashMerge => "Hash.Merge/r0" | .hashSort => "Hash.Sort/r0" | .hashFlatten0 => "Hash.Flatten/r0"
   | .hashFlatten1 => "Hash.Flatten/r1" | .hashKeys => "Hash.Keys/r0" | .hashValues => "Hash.Values/r0"
-  | .mutPutAll => "MutableHashValue.PutAll/a0"
+  | .mutPutAll => "MutableHashValue.PutAll/a0" | .hashEachSlice => "Hash.EachSlice/c0" | .hashAsArray => "Hash.AsArray/r0"
 
 /-- the method a site belongs to (its in-place-write rows are `<method>/w<n>`) -/
 def NewSite.method : NewSite → String
@@ -289,7 +291,7 @@ def NewSite.method : NewSite → String
   | .hashReject => "Hash.Reject" | .hashSelectPairs => "Hash.SelectPairs" | .hashRejectPairs => "Hash.RejectPairs"
   | .hashMerge => "Hash.Merge" | .hashSort => "Hash.Sort" | .hashFlatten0 => "Hash.Flatten"
   | .hashFlatten1 => "Hash.Flatten" | .hashKeys => "Hash.Keys" | .hashValues => "Hash.Values"
-  | .mutPutAll => "MutableHashValue.PutAll"
+  | .mutPutAll => "MutableHashValue.PutAll" | .hashEachSlice => "Hash.EachSlice" | .hashAsArray => "Hash.AsArray"
 
 def CtorSite.key : CtorSite → String
   | .wrapValues => "WrapValues/r0" | .wrapHash => "WrapHash/r0" | .buildArray => "BuildArray/r0"
@@ -371,6 +373,9 @@ def arrSem (look : Look) (r : Nat) (xs : List Val) : Op → Out
     if xs.length < 2 then .same .arrUnique0 .arr r
     else if (dedupe xs).length == xs.length then .same .arrUnique1 .arr r
     else .new .arrUnique2 .arr r (dedupe xs) false
+  | .chunk _ n k =>
+    if n < 1 || n > 64 || k < 0 || k * n ≥ (xs.length : Int) then inapplicable
+    else .window .arrEachSlice .arr r (k * n) (min (xs.length : Int) ((k + 1) * n))
   | .at _ i =>
     if i < 0 then inapplicable else
     match xs[i.toNat]? with
@@ -433,6 +438,10 @@ def hashSem (look : Look) (r : Nat) (isMut : Bool) (es : List Val) : Op → Out
     match elemVal look k, elemVal look v with
     | some k', some v' => .new .mutPutAll .mut r (mergeEntries es [.ent k' v']) true
     | _, _ => inapplicable
+  | .chunk _ n k =>
+    if n < 1 || n > 64 || k < 0 || k * n ≥ (es.length : Int) then inapplicable
+    else .new .hashEachSlice .arr r ((es.drop (k * n).toNat).take n.toNat) false
+  | .asArray _ => .new .hashAsArray .arr r (es.map (fun e => .arr [entKey e, entVal e])) false
   | .get _ x =>
     match elemVal look x with
     | some k => match idxOf es k.key with
@@ -456,7 +465,8 @@ def Op.recv? : Op → Option Nat
   | .lit _ | .parse _ | .coll _ _ | .mnew | .tree _ => none
   | .add r _ | .addAll r _ | .delete r _ | .deleteAll r _ | .slice r _ _ | .map r _ | .select r _ | .reject r _
   | .sort r | .flatten r | .unique r | .at r _ | .merge r _ | .keys r | .values r | .entries r | .mapValues r _
-  | .selectPairs r _ | .rejectPairs r _ | .mput r _ _ | .mputAll r _ | .get r _ | .obs r _ => some r
+  | .selectPairs r _ | .rejectPairs r _ | .mput r _ _ | .mputAll r _ | .get r _ | .chunk r _ _ | .asArray r
+  | .obs r _ => some r
 
 def opSem (look : Look) (op : Op) : Out :=
   match op with
